@@ -499,7 +499,41 @@ def real_graph_states(ctx):
   return [('real-graph', nnx.state(m).raw_mapping)]
 
 
+def run_plain_leaves(ctx, i):
+  """States whose leaves are not arrays / VariableStates but ordinary Python values that happen to have a `.replace` or `.value`
+  attribute of their own (str, bytes, a struct dataclass, an Enum member, a namedtuple): the pure-dict round trip is lossless for
+  them as well."""
+  import collections
+  import enum
+  import jax.numpy as jnp
+  from flax import nnx, struct
+  from flax.nnx import statelib
+
+  @struct.dataclass
+  class Cfg:
+    lr: float = 0.1
+
+  class Mode(enum.Enum):
+    TRAIN = 'train'
+  Pt = collections.namedtuple('Pt', ['x', 'value'])
+  leaf = [('str', 'hello'), ('bytes', b'ab'), ('struct_dataclass', Cfg(0.3)), ('enum', Mode.TRAIN), ('namedtuple', Pt(1, 2)), ('int', 7)][i % 6]
+  desc = dict(leaf_kind=leaf[0])
+  with ctx.case('state.plain_leaves', i, desc, nontrivial=True):
+    st = nnx.State({'a': leaf[1], 'sub': {'w': nnx.VariableState(type=nnx.Param, value=jnp.asarray(2.0)), 'k': leaf[1]}})
+    try:
+      pure = statelib.to_pure_dict(st)
+      statelib.replace_by_pure_dict(st, pure)
+      flat = dict(statelib.to_flat_state(st))
+      ok = flat[('a',)] == leaf[1] and flat[('sub', 'k')] == leaf[1] and isinstance(flat[('sub', 'w')], nnx.VariableState) and float(flat[('sub', 'w')].value) == 2.0
+      ctx.check(ok, 'state.pure_dict_roundtrip:plain_leaf', lambda: dict(case=desc, got=repr(flat)[:300]))
+    except Exception as e:  # noqa: BLE001
+      ctx.check(False, 'state.pure_dict_roundtrip:plain_leaf', dict(case=desc, error=repr(e)[:300]))
+    ctx.op('to_pure_dict / replace_by_pure_dict (plain Python leaves)')
+
+
 def run(ctx):
+  for i in ctx.indices(6, 'state.plain_leaves'):
+    run_plain_leaves(ctx, i)
   n_max = 6 if ctx.tier == 'quick' else 8
   labelings = 6 if ctx.tier == 'quick' else 12
   install_flatstate_hook(ctx)
